@@ -28,6 +28,19 @@ CLAIMED = {
              "fix: commit (known_findings.json, status fixed); seeded/C01-unsorted-cardinals reverts it and is detected.",
         technique="Lean 4 theorem over all permutations of the table + source facts + multi-process search",
         design="§4 C01"),
+    "C02": dict(
+        text="In the model a panic and a non-terminating loop are VALUES (Outcome.panic / outOfFuel with the site), so `every call returns` is `the result is ok or err`. Proved: "
+             "the runner adds no failure of its own - if the parsers, the interpreter and the renderer return ok/err on every input then so do run and trace_changes, for any "
+             "number of groups, rules, lines and words (abstract runner, induction over the lists); every index trace_to_string uses is in range (from C16); on the literal "
+             "fragment of C06 the interpreter's scan loop never panics. REFUTED for the full grammar on the pinned tree: the interpreter port, which agrees with the code on the "
+             "outcome class (ok / error kind / panic / hang) of ~27k generated cases per run, returns panic/outOfFuel on the families of known_findings.json (insertion "
+             "fall-backs D4, `$ > $` D3, numbers above usize::MAX D2, insertion past the end of the word D22/D23, empty optional D25, ...). The property itself is "
+             "evaluated on the implementation over three input streams (grammar, token mutations, noise; 60k quick / 1.5M thorough) under catch_unwind and the step-counter hook.",
+        note="PARTIAL: the rule/alias lexers and parsers are not ported to Lean yet (their totality rests on the search only); stack depth, allocation failure and wall-clock time "
+             "are outside the model; release profile (wrapping arithmetic) - a debug build panics in more places. Panics/hangs are keyed by file::function + message class "
+             "(recomputed from the current source, so line shifts do not matter); a failure at a new site is a VIOLATION.",
+        technique="Lean 4 theorems (runner returns if components do) + outcome-class correspondence of the interpreter port + three-stream search with step budget",
+        design="§4 C02"),
     "C03": dict(
         category="translation_validation",
         text="The interpreter (subrule.rs, rule.rs: all four rule types, every matcher, cursor arithmetic with release-mode wrapping, panics and "
